@@ -38,6 +38,11 @@ func NewRegex(value bytes.Bytes) *Regex {
 // newRegexRule is NewRegex for a rule written in a schema: an expression that
 // does not compile is the author's mistake and is reported as such.
 func newRegexRule(value bytes.Bytes) *Regex {
+	// The expression is written as a string. A number, a boolean or null in
+	// its place is a mistake of the same kind as in any other rule.
+	if v := value.Data(); len(v) < 2 || v[0] != '"' || v[len(v)-1] != '"' {
+		panic(errs.ErrInvalidValueOfConstraint.F(RegexConstraintType.String()))
+	}
 	defer func() {
 		if r := recover(); r != nil {
 			if _, ok := r.(string); ok { // regexp.MustCompile panics with a string
